@@ -400,12 +400,15 @@ def _check_sse_primes(F, R, res):
     hand = None
     cands = []
     scan = [new]
-    for bi, t in new.calls():
-        c = F.callee_of(t)
-        if c and c["local"]:
-            g = F.bodies.get(c.get("res", c["id"]))
-            if g is not None and g.kind == "Fn" and g is not lens_fn:
-                scan.append(g)
+    for lvl in range(2):
+        for fb0 in list(scan):
+            for bi, t in fb0.calls():
+                c = F.callee_of(t)
+                if c and c["local"]:
+                    g = F.bodies.get(c.get("res", c["id"]))
+                    if g is not None and g.kind != "Closure" and g is not lens_fn and g not in scan and not g.r.get("ident", "").startswith("new") \
+                            and "trait" not in g.r and len(g.blocks) < 200:
+                        scan.append(g)
     for fb in scan:
         for bi, si, n in fb.iter_nodes():
             ops = []
